@@ -271,8 +271,9 @@ class Ctx:
             "violations": len(new) + (1 if broken and not new else 0),
         }
         if "VERIF_NO_EVIDENCE" not in os.environ:
-            os.makedirs(os.path.join(VERIF, "evidence"), exist_ok=True)
-            with open(os.path.join(VERIF, "evidence", self.prop + ".json"), "w") as f:
+            evdir = os.path.join(VERIF, "evidence") if REPO == "/repo" else os.path.join(VERIF, ".cache", "evidence-mutant")
+            os.makedirs(evdir, exist_ok=True)
+            with open(os.path.join(evdir, self.prop + ".json"), "w") as f:
                 json.dump(ev, f, indent=1, sort_keys=True, default=str)
                 f.write("\n")
         self.log("done: %d obligations (%d broken), %d evaluations, %d new / %d known failing-input kinds, exit %d"
